@@ -3,7 +3,7 @@
    the specification Dim/Sem.v.  See design/dim.md for what is proved and what is tied by
    correspondence only. *)
 From Coq Require Import String List ZArith QArith Qcanon Bool.
-From NV Require Import Dim.Model Dim.Infer Dim.Sem Dim.Proofs Dim.AcceptProofs.
+From NV Require Import Dim.Model Dim.Infer Dim.Sem Dim.Proofs Dim.AcceptProofs Dim.CanonProofs.
 Import ListNotations.
 Open Scope string_scope.
 
@@ -92,6 +92,16 @@ Theorem C02_accept_sound_annotated :
                         tden th ta = Some b -> steq a b.
 Proof. exact accept_sound_inner. Qed.
 Print Assumptions C02_accept_sound_annotated.
+
+(* The representation invariant behind "the reported type equals the dimension": every factor list
+   produced by DType::try_canonicalize (hence by multiply / divide / power / from_factors) is
+   strictly sorted by the factor order (type variables, base dimensions, type parameters; by name)
+   and has no zero exponent — so Length^0 cannot survive as a type different from Scalar — and
+   canonicalising a canonical list changes nothing. *)
+Theorem C02_canonical_form :
+  forall l : dtype, canonical (canon l) /\ canon (canon l) = canon l.
+Proof. intro l. split; [apply canon_canonical|apply canon_idem]. Qed.
+Print Assumptions C02_canonical_form.
 
 (* ------------------------------------------------------------------ non-vacuity *)
 (* the constraints of `fn f(a, b) = a * b` (elaborate_expression, Mul with open operand types) *)
